@@ -56,9 +56,10 @@ def case_size(case):
 class Recorder:
     """Collects sub-oracle evaluations for one shard; failures are collected, never raised."""
 
-    def __init__(self, prop, known_index):
+    def __init__(self, prop, known_index, all_known=None):
         self.prop = prop
-        self.known = known_index           # {(oracle, trigger): Finding}
+        self.known = known_index           # findings.Index of this property
+        self.all_known = all_known         # findings.Index over every property
         self.evaluations = 0
         self.nontrivial = set()
         self.seen = set()
@@ -85,8 +86,9 @@ class Recorder:
         self.sub[sub] = self.sub.get(sub, 0) + 1
         if ok:
             return True
-        if known is not None and (sub, known) in self.known:
-            kid = '%s/%s' % (sub, known)
+        f = self.known.find(sub, known) if known is not None else None
+        if f is not None:
+            kid = f.ident
             self.known_hits[kid] = self.known_hits.get(kid, 0) + 1
             self._known_case.append(kid)
             return False
@@ -166,7 +168,7 @@ def _shard(args):
         from . import findings
         mod = importlib.import_module('dxverif.props.' + prop.lower())
         known, _ = findings.load()
-        rec = Recorder(prop, findings.index(known, prop))
+        rec = Recorder(prop, findings.index(known, prop), findings.Index(known))
         t0 = time.time()
         # exhaustive part (sharded by index)
         exh = getattr(mod, 'exhaustive', None)
@@ -236,7 +238,8 @@ def merge(parts):
 def replay_file(mod, prop, path, known_index):
     data = json.load(open(path, encoding='utf-8'))
     case = data['case'] if 'case' in data else data
-    rec = Recorder(prop, known_index)
+    from . import findings as _f
+    rec = Recorder(prop, known_index, _f.Index(_f.load()[0]))
     fails = run_one(mod, case, rec)
     return fails, rec
 
@@ -264,11 +267,12 @@ def main(argv):
     mod = importlib.import_module('dxverif.props.' + prop.lower())
     known, _fixed = findings.load()
     kidx = findings.index(known, prop)
+    kmap = {f.ident: f for f in kidx.items}
 
     if argv[1] == '--replay':
         fails, rec = replay_file(mod, prop, argv[2], kidx)
         for kid, n in rec.known_hits.items():
-            print('KNOWN-FINDING: property=%s %s :: %s' % (prop, kid, kidx[tuple(kid.split('/', 1))].text))
+            print('KNOWN-FINDING: property=%s %s :: %s' % (prop, kid, kmap[kid].text))
         if fails:
             for sub, detail in fails:
                 print('FAIL %s: %s' % (sub, _short(detail)))
@@ -330,7 +334,7 @@ def main(argv):
         violations.append((sub, path))
 
     for kid, n in sorted(known_seen.items()):
-        f = kidx[tuple(kid.split('/', 1))]
+        f = kmap[kid]
         print('KNOWN-FINDING: property=%s oracle=%s trigger=%s hits=%d :: %s' % (prop, f.oracle, f.trigger, n, f.text))
 
     wall = time.time() - t0
